@@ -15,7 +15,7 @@ Definition PLoop l acc ts v := exists f, bin_loop tbl f l acc ts = Ok v.
 Definition PUn ts v := exists f, p_unary tbl f ts = Ok v.
 Definition PPostL e ts v := exists f, post_loop tbl f e ts = Ok v.
 Definition PPrim ts v := exists f, p_primary tbl f ts = Ok v.
-Definition PArgs ts v := exists f, p_args tbl f ts = Ok v.
+Definition PArgs trail ts v := exists f, p_args tbl f trail ts = Ok v.
 Definition PPostfix ts v := exists f, p_postfix tbl f ts = Ok v.
 
 Lemma up_assign f f' ts v : p_assign tbl f ts = Ok v -> f <= f' -> p_assign tbl f' ts = Ok v.
@@ -32,7 +32,7 @@ Lemma up_postl f f' e ts v : post_loop tbl f e ts = Ok v -> f <= f' -> post_loop
 Proof. intros H Hle. eapply rle_ok; [apply (proj1 (proj2 (proj2 (proj2 (proj2 (proj2 (mono tbl f))))))); exact Hle|exact H]. Qed.
 Lemma up_prim f f' ts v : p_primary tbl f ts = Ok v -> f <= f' -> p_primary tbl f' ts = Ok v.
 Proof. intros H Hle. eapply rle_ok; [apply (proj1 (proj2 (proj2 (proj2 (proj2 (proj2 (proj2 (mono tbl f)))))))); exact Hle|exact H]. Qed.
-Lemma up_args f f' ts v : p_args tbl f ts = Ok v -> f <= f' -> p_args tbl f' ts = Ok v.
+Lemma up_args f f' trail ts v : p_args tbl f trail ts = Ok v -> f <= f' -> p_args tbl f' trail ts = Ok v.
 Proof. intros H Hle. eapply rle_ok; [apply (proj2 (proj2 (proj2 (proj2 (proj2 (proj2 (proj2 (mono tbl f)))))))); exact Hle|exact H]. Qed.
 
 Lemma postfix_intro ts e r v : PPrim ts (e, r) -> PPostL e r v -> PPostfix ts v.
@@ -136,10 +136,26 @@ Proof.
 Qed.
 
 Lemma R_post_mem e m r v : starts_lp r = false -> PPostL (Mem e m) r v -> PPostL e (TDot :: TId m :: r) v.
-Proof. intros Hs [f H]. exists (S f). rewrite post_loop_S, Hs. exact H. Qed.
+Proof.
+  intros Hs [f H]. exists (S f). rewrite post_loop_S.
+  destruct r as [|t r]; [exact H|]. destruct t; try exact H. discriminate Hs.
+Qed.
 
 Lemma R_post_arrow e m r v : starts_lp r = false -> PPostL (Arrow e m) r v -> PPostL e (TArrow :: TId m :: r) v.
-Proof. intros Hs [f H]. exists (S f). rewrite post_loop_S, Hs. exact H. Qed.
+Proof.
+  intros Hs [f H]. exists (S f). rewrite post_loop_S.
+  destruct r as [|t r]; [exact H|]. destruct t; try exact H. discriminate Hs.
+Qed.
+
+(* a method call a.m(args) / a->m(args) inside the postfix chain *)
+Lemma R_post_mcall ar e m r args r2 v :
+  PArgs true r (args, r2) -> PPostL (MCall ar e m args) r2 v ->
+  PPostL e ((if ar then TArrow else TDot) :: TId m :: TLP :: r) v.
+Proof.
+  intros [f1 H1] [f2 H2]. exists (S (f1 + f2)). rewrite post_loop_S.
+  destruct ar; rewrite (up_args _ (f1 + f2) _ _ _ H1) by lia; cbn [bind];
+    apply (up_postl _ _ _ _ _ H2); lia.
+Qed.
 
 Lemma R_post_incdec e d r : PPostL e (itok d :: r) (Post d e, r).
 Proof. exists 1. rewrite post_loop_S. destruct d; reflexivity. Qed.
@@ -162,19 +178,32 @@ Proof. exists 1. rewrite p_primary_S. reflexivity. Qed.
 
 Lemma R_prim_var x r :
   starts_lp r = false ->
-  (forall r1, r = TOp LtO :: r1 -> generic_scan 1 r1 = false) ->
+  (forall r1, r = TOp LtO :: r1 -> id_upper x = false /\ generic_scan 1 r1 = false) ->
   PPrim (TId x :: r) (Var x, r).
 Proof.
-  intros Hs Hg. exists 1. rewrite p_primary_S.
-  destruct r as [|t r]; [reflexivity|].
-  destruct t; try reflexivity; try discriminate Hs.
-  destruct o; try reflexivity. rewrite (scan_false_b _ _ _ (Hg r eq_refl)). reflexivity.
+  intros Hs Hg. exists 1. rewrite p_primary_S. rewrite Hs, andb_false_r.
+  destruct r as [|t r]; [unfold name_skip; destruct (id_upper x); reflexivity|].
+  destruct t; try (unfold name_skip; destruct (id_upper x); reflexivity); try discriminate Hs.
+  destruct o; try (unfold name_skip; destruct (id_upper x); reflexivity).
+  destruct (Hg r eq_refl) as [Hu Hsc]. unfold name_skip. rewrite Hu.
+  rewrite (scan_false_b _ _ _ Hsc). reflexivity.
 Qed.
 
 Lemma R_prim_call x r args r2 :
-  PArgs r (args, r2) -> starts_lp r2 = false -> PPrim (TId x :: TLP :: r) (Call x args, r2).
+  is_sizeof x = false ->
+  PArgs false r (args, r2) -> starts_lp r2 = false -> PPrim (TId x :: TLP :: r) (Call x args, r2).
 Proof.
-  intros [f H] Hs. exists (S f). rewrite p_primary_S, H. cbn [bind]. rewrite Hs. reflexivity.
+  intros Hz [f H] Hs. exists (S f). rewrite p_primary_S. rewrite Hz. cbn [andb].
+  unfold name_skip. destruct (id_upper x); rewrite H; cbn [bind]; rewrite Hs; reflexivity.
+Qed.
+
+(* sizeof ( expression ) *)
+Lemma R_prim_sizeof x r e r2 :
+  is_sizeof x = true -> sizeof_type_start r = false ->
+  PAsg r (e, TRP :: r2) -> PPrim (TId x :: TLP :: r) (Call x [e], r2).
+Proof.
+  intros Hz Ht [f H]. exists (S f). rewrite p_primary_S. rewrite Hz. cbn [starts_lp andb].
+  rewrite Ht, H. reflexivity.
 Qed.
 
 Lemma R_prim_paren r e r' :
@@ -183,34 +212,41 @@ Proof.
   intros Hc [f H]. exists (S f). rewrite p_primary_S, Hc, H. reflexivity.
 Qed.
 
+(* ( type ) unary *)
+Lemma R_prim_cast r ty r' a r2 :
+  cast_type r = Some (ty, r') -> PUn r' (a, r2) -> PPrim (TLP :: r) (Cast ty a, r2).
+Proof.
+  intros Hc [f H]. exists (S f). rewrite p_primary_S, Hc, H. reflexivity.
+Qed.
+
 (* ---- argument lists *)
-Lemma R_args_nil r : PArgs (TRP :: r) ([], r).
+Lemma R_args_nil trail r : PArgs trail (TRP :: r) ([], r).
 Proof. exists 1. rewrite p_args_S. reflexivity. Qed.
 
-Lemma R_args_last ts a r : (forall r0, ts <> TRP :: r0) -> PAsg ts (a, TRP :: r) -> PArgs ts ([a], r).
+Lemma R_args_last trail ts a r : (forall r0, ts <> TRP :: r0) -> PAsg ts (a, TRP :: r) -> PArgs trail ts ([a], r).
 Proof.
   intros Hn [f H]. exists (S f). rewrite p_args_S.
   destruct ts as [|t ts']; [rewrite H; reflexivity|].
   destruct t; try (rewrite H; reflexivity). exfalso. eapply Hn; reflexivity.
 Qed.
 
-Lemma R_args_cons ts a r l r' :
+Lemma R_args_cons trail ts a r l r' :
   (forall r0, ts <> TRP :: r0) -> (forall r0, r <> TRP :: r0) ->
-  PAsg ts (a, TComma :: r) -> PArgs r (l, r') -> PArgs ts (a :: l, r').
+  PAsg ts (a, TComma :: r) -> PArgs trail r (l, r') -> PArgs trail ts (a :: l, r').
 Proof.
   intros Hn Hn2 [f1 H1] [f2 H2]. exists (S (f1 + f2)). rewrite p_args_S.
   assert (E : bind (p_assign tbl (f1 + f2) ts) (fun ar =>
         match ar with
         | (a, TComma :: r) =>
             match r with
-            | TRP :: _ => Err
-            | _ => bind (p_args tbl (f1 + f2) r) (fun asr => let (l, r') := asr in Ok (a :: l, r'))
+            | TRP :: r' => if trail then Ok ([a], r') else Err
+            | _ => bind (p_args tbl (f1 + f2) trail r) (fun asr => let (l, r') := asr in Ok (a :: l, r'))
             end
         | (a, TRP :: r) => Ok ([a], r)
         | _ => Err
         end) = Ok (a :: l, r')).
   { rewrite (up_assign _ (f1 + f2) _ _ H1) by lia. cbn [bind].
-    rewrite (up_args _ (f1 + f2) _ _ H2) by lia.
+    rewrite (up_args _ (f1 + f2) _ _ _ H2) by lia.
     destruct r as [|t r0]; [reflexivity|]. destruct t; try reflexivity. exfalso. eapply Hn2; reflexivity. }
   destruct ts as [|t ts']; [exact E|].
   destruct t; try exact E. exfalso. eapply Hn; reflexivity.
